@@ -303,12 +303,54 @@ def hash_inputs(model, evs):
     return out
 
 
+def _module_text_constant(model, e, depth=0):
+    """a module-level name of the generator's module bound exactly once to a string literal (or a
+    concatenation of such names and literals) is that constant text"""
+    if not isinstance(e, ast.Name) or depth > 4:
+        return e
+    try:
+        tree = model.repo.modules[model.fi.module]['tree']
+    except Exception:
+        return e
+    binds = [st for st in tree.body if isinstance(st, (ast.Assign, ast.AugAssign, ast.FunctionDef, ast.ClassDef, ast.Import, ast.ImportFrom)) and (
+        (isinstance(st, ast.Assign) and any(isinstance(t, ast.Name) and t.id == e.id for t in st.targets)) or
+        (isinstance(st, ast.AugAssign) and isinstance(st.target, ast.Name) and st.target.id == e.id) or getattr(st, 'name', None) == e.id)]
+    if len(binds) != 1 or not isinstance(binds[0], ast.Assign):
+        return e
+    # a local of the function with the same name hides it
+    if any(isinstance(n, ast.Name) and n.id == e.id and isinstance(n.ctx, ast.Store) for n in ast.walk(model.fi.node)):
+        return e
+    for fn in model.repo.functions.values():
+        if fn.module == model.fi.module and any(isinstance(n, ast.Global) and e.id in n.names for n in ast.walk(fn.node)):
+            return e
+
+    def text(v, d):
+        if isinstance(v, ast.Constant) and isinstance(v.value, str):
+            return v.value
+        if isinstance(v, ast.BinOp) and isinstance(v.op, ast.Add):
+            a, b = text(v.left, d), text(v.right, d)
+            return a + b if a is not None and b is not None else None
+        if isinstance(v, ast.Name) and d < 4:
+            r = _module_text_constant(model, v, d + 1)
+            return r.value if isinstance(r, ast.Constant) and isinstance(r.value, str) else None
+        return None
+    t = text(binds[0].value, depth)
+    return ast.copy_location(ast.Constant(value=t), e) if t is not None else e
+
+
 def foreign_operands(model, p, evs, src):
     """operands of a written / executed text that are neither constants, nor the
     cookie line, nor inputs of the hash"""
     hin = set(hash_inputs(model, evs))
     bad = []
     for op in concat_operands(src):
+        if canon(strip_encode(op)) in hin:
+            continue
+        op = _module_text_constant(model, op)
+        if isinstance(op, ast.BinOp) and isinstance(op.op, ast.Mod):
+            l_ = _module_text_constant(model, op.left)
+            if l_ is not op.left:
+                op = ast.copy_location(ast.BinOp(left=l_, op=op.op, right=op.right), op)
         if isinstance(op, ast.Constant):
             continue
         t = canon(strip_encode(op))
